@@ -44,8 +44,14 @@ func coqZList(l []int64) string {
 
 // genBotReal: the days of Engine.modelDay for a handful of traveller-bots, each in a band of its own so
 // that the band statistics tell which check-ins were accepted.
-func genBotReal(rng *Rng, workdir string, stress bool) *engSession {
-	s := newEngSession(workdir, "C08")
+func genBotReal(rng *Rng, workdir string, stress bool) (s *engSession) {
+	s = newEngSession(workdir, "C08")
+	// a crash of the planner code under test is a finding with the history so far as its replay
+	defer func() {
+		if x := recover(); x != nil {
+			s.fail("C20", "planner-crashes", fmt.Sprintf("the simulation's planner code panicked: %v", x))
+		}
+	}()
 	s.maskOverride = 1 | 16
 	var p flap.FlapParams
 	tripLengths := [][]int{{2, 3, 5}, {2, 2}, {2, 3, 5, 7, 7, 14}, {3}, {2, 9}, {1, 2}, {1}}[rng.Intn(7)]
@@ -116,6 +122,10 @@ func genBotReal(rng *Rng, workdir string, stress bool) *engSession {
 		days = rng.Range(100, 200)
 	}
 	day := uint64(rng.Range(17500, 19500))
+	if rng.Chance(1, 4) {
+		// around the end of a leap year divisible by 400, a leap day, the end of a year divisible by 100
+		day = []uint64{11310, 11290, 11015, 47450, 19750}[rng.Intn(5)] + uint64(rng.Intn(20))
+	}
 	dtFactor := 1.0 - 0.05*rng.F01()
 	idx := map[flap.Passport]int{}
 	for i, t := range s.trav {
